@@ -15,17 +15,6 @@ structure CfgOK (c : Cfg) : Prop where
   ratioLe : c.cancelNum ≤ c.cancelDen
   denPos : 0 < c.cancelDen
 
-theorem amountOf_nonneg_of_allPos {amt : Coins} (h : allPos amt = true) (d : Denom) :
-    0 ≤ Coins.amountOf amt d := by
-  induction amt with
-  | nil => simp
-  | cons x rest ih =>
-    obtain ⟨d', v⟩ := x
-    simp only [allPos, List.all_cons, Bool.and_eq_true, decide_eq_true_eq] at h
-    have := ih (by simpa [allPos] using h.2)
-    simp only [Coins.amountOf_cons]
-    split_ifs <;> omega
-
 theorem amountOf_pos_head {d : Denom} {v : Int} {rest : Coins} (h : allPos ((d, v) :: rest) = true) :
     0 < Coins.amountOf ((d, v) :: rest) d := by
   have h' := h
@@ -88,14 +77,6 @@ theorem hookMsgs_zero {c : Cfg} {id : Nat} {st : Store} (msgs : List PMsg)
     exact ih
 
 /-! ### ledger monotonicity of the primitives -/
-
-theorem bal_move_mono {l : Ledger} {f t a : Addr} {amt : Coins} (hne : a ≠ f)
-    (hnn : ∀ d, 0 ≤ Coins.amountOf amt d) (d : Denom) : l.bal a d ≤ (l.move f t amt).bal a d := by
-  rw [Ledger.bal_move]
-  have := hnn d
-  have hf : ¬ f = a := fun h => hne h.symm
-  simp only [hf, if_false]
-  split_ifs <;> omega
 
 theorem sendCoins_bal {s s' : State} {f t a : Addr} {amt : Coins} (hs : sendCoins s f t amt = .ok s')
     (hne : a ≠ f) (hnn : ∀ d, 0 ≤ Coins.amountOf amt d) (d : Denom) :
@@ -443,6 +424,12 @@ theorem applyOp_bal {s s' : State} {op : Op} {a : Addr} (h : Inv s) (hc : CfgOK 
     simp only [Ledger.bal_credit]
     have := amountOf_nonneg_of_allPos hv' d
     split_ifs <;> omega
+  | grant a' b lim => exact (applyOp_route (op := .grant a' b lim) rfl hs).2 a d ha
+  | mxfer admin frm to d' x => exact (applyOp_route (op := .mxfer admin frm to d' x) rfl hs).2 a d ha
+  | mwd admin to d' amt => exact (applyOp_route (op := .mwd admin to d' amt) rfl hs).2 a d ha
+  | mktwd admin to amt => exact (applyOp_route (op := .mktwd admin to amt) rfl hs).2 a d ha
+  | pay src tgt sa ta => exact (applyOp_route (op := .pay src tgt sa ta) rfl hs).2 a d ha
+  | settle sl by' as pr => exact (applyOp_route (op := .settle sl by' as pr) rfl hs).2 a d ha
 
 theorem run_balance_mono (a : Addr) (d : Denom) (more : List Op) (s : State) (hi : Inv s) (hc : CfgOK s.cfg)
     (hs : ∀ k, k < more.length → isSanctionedAddr s.cfg (run s (more.take k)).st a = true) :
